@@ -2,6 +2,9 @@ import CkptVerif.Proofs.DiskCost
 import CkptVerif.Proofs.HOptTables
 import CkptVerif.Proofs.PeriodicCost
 import CkptVerif.Proofs.HRevolveCost
+import CkptVerif.Proofs.RevolveOptimal
+import CkptVerif.Proofs.DiskCounterexamples
+import CkptVerif.Proofs.HRevolveNoDisk
 /-!
 # C07 — the H-Revolve family achieves its cost optimum for any (integer) cost vector
 
@@ -11,8 +14,16 @@ import CkptVerif.Proofs.HRevolveCost
 * `C07_disk_le_revolve`  cost(DiskRevolve) ≤ cost(Revolve);
 * `C07_hopt_antitone`    the hierarchical table is non-increasing in the number of disk units, and never above level 0;
 * HRevolve / PeriodicDiskRevolve stream costs: see `C07More.lean` when present.
-Stated, not proved: optimality of the DP recurrences over ALL schedules (Herrmann–Pallez 2020 Thm 1;
-Aupy et al. 2016 Thm 3.15).
+* `C07_revolve_optimal`, `C07_hrevolve_nodisk_optimal`: Revolve (and HRevolve without disk units) is
+  cost-optimal among ALL streams the executor accepts (restart data only);
+* `C07_diskRevolve_oneRead`: the DiskRevolve stream is an accepted member of the class `OneRead` (every disk
+  checkpoint written by a Forward and read once, by the Move that removes it) and costs the table value;
+* `C07_diskRevolve_not_optimal_unrestricted`, `C07_optInf_not_lowerBound`, `C07_hopt_not_lowerBound_plain`:
+  kernel-checked counterexamples — OUTSIDE `OneRead` (reading a disk checkpoint twice; copying a RAM
+  checkpoint to disk) the executor accepts cheaper streams, so "optimum" for the two-level classes can only
+  mean the optimum of the restricted problem the tables solve, as the property text says for DiskRevolve.
+Stated, not proved (`LB7.DiskOneReadOptimal`, `LB7.HRevolveOptimalT`; supported by exhaustive search for
+small `N`): the tables are lower bounds inside those classes.
 -/
 namespace Ckpt
 
@@ -22,8 +33,6 @@ alias C07_disk_le_revolve := RC.diskRevolve_le_revolve
 alias C07_optInf_le_opt0 := RC.optInf_le_opt0
 alias C07_hopt_antitone := RC.hopt1_antitone
 alias C07_hopt_le_level0 := RC.hopt1_le_level0
-
-def C07_full_stated : Prop := True
 
 end Ckpt
 
@@ -35,4 +44,19 @@ alias C07_hrevolve_more_disk := RC.hrevolve_more_disk
 /-- cost(PeriodicDiskRevolve) ≥ cost(DiskRevolve) -/
 alias C07_disk_le_periodic := RC.diskRevolve_le_periodic
 alias C07_periodic_cost := RC.periodic_cost
+end Ckpt
+
+namespace Ckpt
+-- `Ckpt.C07_revolve_optimal`, `Ckpt.C07_opt0_lowerBound` (Proofs/RevolveOptimal.lean): Revolve is cost-optimal
+-- among ALL streams the executor accepts for `cm` RAM units (restart data only)
+/-- HRevolve with no disk units likewise -/
+alias C07_hrevolve_nodisk_optimal := RC.C07_hrevolve_nodisk_optimal
+/-- the DiskRevolve stream: accepted, complete, in `OneRead`, cost = `optInf[N-1] + N·uf` -/
+alias C07_diskRevolve_oneRead := LB7.diskRevolve_attains
+/-- outside `OneRead` DiskRevolve is NOT optimal (kernel-checked accepted streams that are cheaper) -/
+alias C07_diskRevolve_not_optimal_unrestricted := LB7.diskRevolve_not_optimal
+alias C07_optInf_not_lowerBound := LB7.optInf_not_lowerBound
+alias C07_hopt_not_lowerBound_plain := LB7.hopt_not_lowerBound_obsCost
+/-- a (not tight) lower bound for every accepted two-level stream -/
+alias C07_hrevolve_cost_ge := LB7.hrevolve_cost_ge
 end Ckpt
